@@ -11,7 +11,7 @@ import json, os, shutil, subprocess, sys, time
 cid, mn = sys.argv[1], sys.argv[2]
 tier = sys.argv[3] if len(sys.argv) > 3 else "quick"
 checks = [cid] + sys.argv[4:]
-src = "/tmp/seed/%s/OUT/%s" % (cid, mn)
+src = os.environ.get("SEED_SRC") or "/tmp/seed/%s/OUT/%s" % (cid, mn)
 dst = "/verif/seeded/%s-%s" % (cid, mn)
 vres = "/tmp/sv/results/%s-%s.json" % (cid, mn)
 
